@@ -125,9 +125,12 @@ class Ctx(object):
                         return b
         raise AnchorMissing("<%s as %s>::%s" % (self_ty_suffix, trait_suffix, method))
 
-    def eval_entry(self, prog_kind, body, args=None, literal=None):
-        """Evaluate a body with symbolic inputs; `literal` maps parameter names to terms."""
+    def eval_entry(self, prog_kind, body, args=None, literal=None, opaque=None):
+        """Evaluate a body with symbolic inputs; `literal` maps parameter names to terms;
+        `opaque`: def keys / paths of callees summarised instead of inlined."""
         ev = self.world.ev(prog_kind)
+        if opaque:
+            ev.opaque_defs = set(opaque)
         a = api.symbolic_args(ev, body)
         if literal:
             for i, p in enumerate(body["params"]):
